@@ -258,6 +258,10 @@ FIXED_IPS = [
     "1.2.3.4,5.6.7.8", "1.2.3.4, 5.6.7.8", "\x00", "1.2.3.4\x00", "٠.٠.٠.٠", "１.２.３.４", "1．2．3．4", "::ffff:1.2.3", "::ffff:256.0.0.1",
     "0.0.0.0:1", "[::]:1", "[::]", "0.0.0.00", "00.0.0.0", "0.0.0", ":", ".", "...", ":::", "::ffff:0.0.0.0%x", "0.0.0.0 ", "::ffff:00.0.0.0",
     "1:2:3:4:5:6:1.2.3.4", "1:2:3:4:5:6:0.0.0.0", "0:0:0:0:0:0:0.0.0.0", "0:0:0:0:0:ffff:0.0.0.0", "a:b:c:d:e:f:0:1", "A:B:C:D:E:F:0:1",
+    # the longest spellings an address has (40..45 characters: every group written out, the last 32 bits as a dotted quad)
+    "0000:0000:0000:0000:0000:ffff:192.0.2.128", "2001:0db8:0000:0000:0000:0000:203.100.113.201", "ffff:ffff:ffff:ffff:ffff:ffff:255.255.255.255",
+    "0000:0000:0000:0000:0000:0000:100.100.100.100", "0000:0000:0000:0000:0000:ffff:000.0.0.0", "0000:0000:0000:0000:0000:ffff:10.20.30.40",
+    "0000:0000:0000:0000:0000:0000:0.0.0.0", "0000:0000:0000:0000:0000:ffff:0.0.0.0", "2001:0db8:0000:0000:0000:0000:203.100.113.2011",
     "00001::1", "1::2::3", "2001:db8::", "::db8:1", "100::", "0:0:0:0:0:0:1:0", "abcd:0:0:12:0:0:0:1", "0:0:5:0:0:6:0:0",
 ]
 
@@ -281,6 +285,8 @@ def rand_ip(rng):
                 return ":".join(parts[:i]) + "::" + ":".join(parts[j:])
             return ":".join(parts)
         if form < 0.7:
+            if rng.random() < 0.5:
+                parts = ["%04x" % h for h in hs]          # every group written out: up to 45 characters
             return ":".join(parts[:6]) + ":%d.%d.%d.%d" % (hs[6] >> 8, hs[6] & 255, hs[7] >> 8, hs[7] & 255)
         if form < 0.8:
             v = rng.choice(["::ffff:", "::", "::ffff:0:", "0:0:0:0:0:ffff:"])
